@@ -254,8 +254,11 @@ VALUES = {"setKeepAliveInterval": 0.5, "setConnectionTimeout": 0.75, "setMessage
 def client_setter_work(arg):
     before, after, frame = arg[:3]
     during = arg[3] if len(arg) > 3 else ()
+    VALUES = dict(globals()["VALUES"])
+    if len(arg) > 4 and arg[4]:
+        VALUES.update(dict(arg[4]))
     viols = {}
-    wit = {"part": "client-setters", "before_connect": list(before), "during_handshake": list(during), "after_connect": list(after)}
+    wit = {"part": "client-setters", "before_connect": list(before), "during_handshake": list(during), "after_connect": list(after), "values": VALUES}
 
     def flag(oracle, sig, msg):
         viols.setdefault((oracle, sig), [0, wit, msg])[0] += 1
@@ -315,10 +318,12 @@ def client_setter_work(arg):
 
 
 def server_setter_work(arg):
-    order, frame = arg
+    order, frame = arg[:2]
     vals = {"setKeepAliveInterval": 0.5, "setConnectionTimeout": 1.5, "setTempConnectionTimeout": 0.5, "setMessageTimeout": 0.25, "setInterval": frame}
+    if len(arg) > 2 and arg[2]:
+        vals.update(arg[2])
     viols = {}
-    wit = {"part": "server-setters", "order": list(order)}
+    wit = {"part": "server-setters", "order": list(order), "values": {k: v for k, v in vals.items() if k != "setInterval"}}
 
     def flag(oracle, sig, msg):
         viols.setdefault((oracle, sig), [0, wit, msg])[0] += 1
@@ -339,9 +344,9 @@ def server_setter_work(arg):
             w.tick()
             if w.clients[0].addr in w.ctxt.connections and w.clients[0].client.connected():
                 break
-        w.run(int(1.6 / frame))
-        g = gaps(w, w.tickno - int(1.1 / frame))["s"]
         ka = vals["setKeepAliveInterval"]
+        w.run(int((3 * ka + 0.1) / frame))
+        g = gaps(w, w.tickno - int((2 * ka + 0.1) / frame))["s"]
         if not g or not (ka - EPS <= max(g) <= ka + max(frame, send_tick(frame)) + EPS):
             flag("setter-effect", "ServerContext.setKeepAliveInterval has no effect on the server's keep-alive period", "configured %.2f observed %s" % (ka, ("%.4f" % max(g)) if g else None))
         # temp timeout: second client says hello and goes silent
@@ -351,7 +356,7 @@ def server_setter_work(arg):
         w.clients[1].client.forceDisconnect()
         t_in = None
         t_out = None
-        for _ in range(int(1.5 / frame)):
+        for _ in range(int((vals["setTempConnectionTimeout"] + 1.0) / frame)):
             w.tick()
             present = w.clients[1].addr in w.ctxt.temp_connections
             if present and t_in is None:
@@ -367,7 +372,7 @@ def server_setter_work(arg):
         w.start_blackout("both", 10 ** 9)
         t_send = w.vt.now
         sc.send(payload(2, 10), callback=lambda ok: res.append((w.vt.now, ok)))
-        w.run(int(2.2 / frame))
+        w.run(int((max(vals["setMessageTimeout"], vals["setConnectionTimeout"]) + 0.7) / frame))
         mt = vals["setMessageTimeout"]
         if len(res) != 1 or res[0][1] is not False or not (mt - EPS <= res[0][0] - t_send <= mt + 3 * frame + send_tick(frame) + EPS):
             flag("setter-effect", "ServerContext.setMessageTimeout has no effect on server side sends", "configured %.2f, callbacks %r (sent at %.4f)" % (mt, res, t_send))
@@ -454,11 +459,20 @@ def run(tier, seed):
                 after = tuple(s for i, s in enumerate(subset) if phases[i] == 2)
                 cs_jobs.append((before, after, 1.0 / 64, during))
     cs_jobs = sorted(set(cs_jobs))
+    for vals in ((("setKeepAliveInterval", 2.0), ("setConnectionTimeout", 6.0), ("setMessageTimeout", 3.0)),
+                 (("setKeepAliveInterval", 0.03), ("setConnectionTimeout", 0.3), ("setMessageTimeout", 0.05))):
+        for names_ in (CLIENT_SETTERS, tuple(reversed(CLIENT_SETTERS))):
+            cs_jobs.append((names_, (), 1.0 / 64, (), vals))
+            cs_jobs.append(((), names_, 1.0 / 64, (), vals))
+            cs_jobs.append(((), (), 1.0 / 64, names_, vals))
     res = core.pmap("checks.c12", "client_setter_work", cs_jobs)
     for r in res:
         fold(r[1])
     names = ["setKeepAliveInterval", "setConnectionTimeout", "setTempConnectionTimeout", "setMessageTimeout", "setInterval"]
     ss_jobs = [(o, 1.0 / 64) for o in (itertools.permutations(names) if tier == "thorough" else [tuple(names), tuple(reversed(names)), tuple(names[2:] + names[:2])])]
+    big = {"setKeepAliveInterval": 2.0, "setConnectionTimeout": 7.5, "setTempConnectionTimeout": 3.5, "setMessageTimeout": 3.0}
+    odd = {"setKeepAliveInterval": 0.03, "setConnectionTimeout": 0.4, "setTempConnectionTimeout": 0.1, "setMessageTimeout": 0.05}
+    ss_jobs += [(tuple(names), 1.0 / 64, big), (tuple(reversed(names)), 1.0 / 64, big), (tuple(names), 1.0 / 64, odd), (tuple(reversed(names)), 1.0 / 50, odd)]
     res = core.pmap("checks.c12", "server_setter_work", ss_jobs)
     for r in res:
         fold(r[1])
@@ -492,9 +506,9 @@ def replay(witness):
     elif part == "connect":
         v = connect_work((witness["timeout"], witness["callback"], witness["frame"], witness.get("set_when", "before")))[1]
     elif part == "client-setters":
-        v = client_setter_work((tuple(witness["before_connect"]), tuple(witness["after_connect"]), 1.0 / 64, tuple(witness.get("during_handshake", ()))))[1]
+        v = client_setter_work((tuple(witness["before_connect"]), tuple(witness["after_connect"]), 1.0 / 64, tuple(witness.get("during_handshake", ())), tuple((witness.get("values") or {}).items())))[1]
     elif part == "server-setters":
-        v = server_setter_work((tuple(witness["order"]), 1.0 / 64))[1]
+        v = server_setter_work((tuple(witness["order"]), 1.0 / 64, witness.get("values")))[1]
     elif part == "jitter":
         ch = explore.replay_choices(jitter_scenario, tuple(witness["params"]), witness["choices"])
         return [core.Violation(o, s, witness, m) for o, s, m in ch.found]
